@@ -417,7 +417,7 @@ def r_mode_copy(ctx):
     penalties, baud rate, OSNR threshold, tx OSNR, bit rate, format)"""
     from .common import mode_copy_rule
     mode_copy_rule(ctx, 'R8.mode-copy', 'the reverse direction (and the reported result) would be equalised without the offset of the selected mode')
-    ctx.need('R8.mode-copy', 3)
+    ctx.need('R8.mode-copy', 2)
 
 
 def rn_arg_roles(ctx):
